@@ -34,8 +34,8 @@ def strategy(tier):
 
     @st.composite
     def cases(draw):
-        spec = draw(gen.tree_specs(opts))
-        stream, exactish = draw(gen.streams(spec, max_rows=60 if thorough else 30))
+        spec, focus = draw(gen.specs_and_focus(opts, 4))
+        stream, exactish = draw(gen.streams(spec, max_rows=60 if thorough else 30, focus=focus))
         n = len(stream)
         perm = list(draw(st.permutations(list(range(n)))))
         crit = gen.critical_values(spec)
